@@ -136,6 +136,9 @@ func (fv *FuncVC) translate() (err error) {
 		if t.Sort.Kind == KRef {
 			fv.assert(app("<=", t.S, fv.entry.ghost["alloc"].S))
 		}
+		if t.Sort.Kind == KBytes || t.Sort.Kind == KSlice {
+			fv.assert(app("<=", fv.baseOf(t), fv.entry.ghost["alloc"].S))
+		}
 		fv.vals[p] = Val{T: t}
 		fv.params[names[i]] = Val{T: t}
 	}
